@@ -46,7 +46,7 @@ def lons(tier, seed):
 
 
 VECS = [[1.0, 0.0, 0.0], [0.0, 1.0, 0.0], [0.0, 0.0, 1.0], [1.0, 1.0, 1.0], [-3.0, 4.0, 12.0], [1e7, -1e7, 1e7], [1e-3, 0.0, -1e7],
-        [0.0, 0.0, 0.0], [6378137.0, 1.0, -0.5]]
+        [0.0, 0.0, 0.0], [6378137.0, 1.0, -0.5], [1200.0, 250.0, 3.0], [-128.0, 127.0, -32768.0]]
 
 
 def gen_frame(tier, seed):
@@ -128,6 +128,13 @@ def ev_frame1(case, rec):
                     rec.fail('angle-class arguments give a different result from their decimal-degree values', site='geodesy:enu2xyz:intype',
                              observed=list(x), expected=list(x2), case=one)
                 continue
+            if all(float(c).is_integer() for c in v):
+                # whole-number components in every exact numeric spelling (numpy unsigned / small signed integers included)
+                cfg.scalar_forms_agree(rec, lambda e_, n_, u_: enu2xyz(lat_a, lon_a, e_, n_, u_), list(map(float, v)), [0, 1, 2], x,
+                                       'geodesy:enu2xyz', one, {'lat': la, 'lon': lo, 'vec': v}, 'enu2xyz')
+                cfg.scalar_forms_agree(rec, lambda x_, y_, z_: xyz2enu(lat_a, lon_a, x_, y_, z_), list(map(float, v)), [0, 1, 2],
+                                       xyz2enu(lat_a, lon_a, float(v[0]), float(v[1]), float(v[2])),
+                                       'geodesy:xyz2enu', one, {'lat': la, 'lon': lo, 'vec': v}, 'xyz2enu')
             n0, n1 = math.sqrt(sum(c * c for c in v)), math.sqrt(sum(float(c) ** 2 for c in x))
             st, b = rec.call(xyz2enu, lat_a, lon_a, x[0], x[1], x[2])
             if st != 'ok':
@@ -294,6 +301,16 @@ def ev_ell(case, rec):
             ww, VV = np.linalg.eigh((A + A.T) / 2)
             return VV @ np.diag(np.sqrt(np.clip(ww, 0.0, None))) @ VV.T
         C12 = 0.5 * sq(V1) @ rotations()[4] @ sq(V2)
+        if m is case['mats'][0]:
+            # whole-number blocks with strongly correlated stations (negative elements in var1 + var2 - cov12 - cov12^T), held in
+            # every integer dtype incl. unsigned ones
+            I1, I2, I12 = [[4, 1, 0], [1, 3, 1], [0, 1, 9]], [[9, 2, 1], [2, 8, 0], [1, 0, 5]], [[5, 4, 0], [4, 5, 0], [0, 0, 1]]
+            stb, base = rec.call(relative_error, -23.67, 133.88, np.array(I1, float), np.array(I2, float), np.array(I12, float))
+            for (n1, a1), (n2, a2), (n3, a3) in zip(cfg.matrix_forms(I1), cfg.matrix_forms(I2), cfg.matrix_forms(I12)):
+                stf, rf = rec.call(relative_error, -23.67, 133.88, a1, a2, a3)
+                if stb != 'ok' or stf != 'ok' or cfg.flat(rf) != cfg.flat(base):
+                    rec.fail('relative_error answers differently when the same covariance blocks are held in %s arrays' % n1,
+                             site='statistics:relative_error:matrix-form', observed=rf, expected=base, case=one, coords={'form': n1})
         for (la, lo) in ((-23.67, 133.88), (90.0, 0.0), (0.0, -90.0)):
             st, rr = rec.call(relative_error, la, lo, V1, V2, C12)
             if st != 'ok':
